@@ -380,9 +380,17 @@ class ReaderEval:
         return ret
 
     def _block(self, stmts, fi, env):
-        for st in stmts:
+        for i_, st in enumerate(stmts):
             if isinstance(st, ast.Expr):
                 continue
+            if isinstance(st, ast.If) and not st.orelse and len(st.body) == 1 and isinstance(st.body[0], ast.Return) and \
+                    st.body[0].value is not None and i_ + 1 < len(stmts) and isinstance(stmts[i_ + 1], ast.Return) and \
+                    stmts[i_ + 1].value is not None:
+                # `if c: return A` / `return B` is the statement spelling of `return A if c else B` (the loader unfolds the latter)
+                both = ast.copy_location(ast.IfExp(test=st.test, body=st.body[0].value, orelse=stmts[i_ + 1].value), st)
+                v = self.ev(both, fi, env)
+                if v is not None:
+                    return v
             if isinstance(st, ast.AugAssign) and isinstance(st.target, ast.Name):
                 cur = ast.Name(id=st.target.id, ctx=ast.Load())
                 env[st.target.id] = self.ev(ast.BinOp(left=cur, op=st.op, right=st.value, lineno=st.lineno), fi, env)
